@@ -517,10 +517,12 @@ pub fn explore(plan: &Plan, sum: &mut Summary, only: Option<&Damage>) -> Vec<Hit
                     // which MANIFEST field the flipped byte belongs to (by position in the JSON text)
                     let orig = img.names.get(&name).and_then(|i| img.inodes.get(i)).cloned().unwrap_or_default();
                     let text = String::from_utf8_lossy(&orig).to_string();
-                    let before = &text[..(*offset).min(text.len())];
+                    // a key owns the text from its opening quote up to the next key (so a flip inside a key NAME counts
+                    // for that key: the field then goes missing and serde falls back to its default)
                     let field = ["\"version\"", "\"latest_snapshot\"", "\"latest_snapshot_wal_seq\"", "\"wal_segments\"", "\"last_updated\""]
                         .iter()
-                        .filter_map(|k| before.rfind(k).map(|p| (p, *k)))
+                        .filter_map(|k| text.find(k).map(|p| (p, *k)))
+                        .filter(|(p, _)| *p <= *offset)
                         .max()
                         .map(|x| x.1.trim_matches('"').to_string())
                         .unwrap_or_else(|| "structure".into());
